@@ -50,6 +50,7 @@ using namespace gtry;
 // ------------------------------------------------------------------------------------------------
 namespace perturb {
 	static int level = 0;               // 0 = off
+	static thread_local bool mainThread = false;   // only the constructing thread is perturbed (the state below is not thread safe)
 	static bool inside = false;
 	static uint64_t state = 1;
 	static constexpr size_t RING = 8192;
@@ -61,7 +62,7 @@ namespace perturb {
 
 	static void *alloc(size_t sz) {
 		if (sz == 0) sz = 1;
-		if (level == 0 || inside) return malloc(sz);
+		if (level == 0 || inside || !mainThread) return malloc(sz);
 		inside = true;
 		nAlloc++;
 		uint64_t r = next();
@@ -275,6 +276,19 @@ static std::vector<HandDesign> handDesigns() {
 		p = pipestage(p);
 		pinOut(o).setName("o");
 		pinOut(p).setName("p");
+	}});
+
+	res.push_back({"h_retime_intersect", "single", "default", [] {
+		// the enable suggested for the retimed stage is the INTERSECTION of two conjunctions with two common terms
+		UInt in1 = pinIn(6_b).setName("in1"), in2 = pinIn(6_b).setName("in2");
+		Bit ready = pinIn().setName("ready"), valid = pinIn().setName("valid"), e3 = pinIn().setName("e3"), e4 = pinIn().setName("e4");
+		UInt d = in1 + 1, e = in2 + 2, f = in1 ^ in2;
+		ENIF (ready & valid & e3) d = reg(d, {.allowRetimingForward = true});
+		ENIF (valid & ready) e = reg(e, {.allowRetimingForward = true});
+		ENIF (e4 & valid & !e3 & ready) f = reg(f, {.allowRetimingForward = true});
+		UInt q = (d ^ e) + f;
+		q = pipestage(q);
+		pinOut(q).setName("q");
 	}});
 
 	res.push_back({"h_retime_hint", "single", "ghdl", [] {
@@ -606,6 +620,7 @@ int main(int argc, char **argv) {
 		std::cerr << "usage: C10_det build <programs|-> <handlist|-|all> <outroot> <tag> <pseed> <prealloc_kb> <nbuilds> <shuffles> <cycles> [stimfile]\n";
 		return 2;
 	}
+	perturb::mainThread = true;
 	std::string progFile = argv[2], handList = argv[3], outroot = argv[4], tag = argv[5];
 	uint64_t pseed = std::stoull(argv[6]);
 	size_t preallocKb = std::stoull(argv[7]), nbuilds = std::stoull(argv[8]), shuffles = std::stoull(argv[9]), cycles = std::stoull(argv[10]);
